@@ -101,6 +101,11 @@ Theorem C06_atf_child_index_in_family :
 Proof. exact atf_child_index_in_family. Qed.
 Print Assumptions C06_atf_child_index_in_family.
 
+Theorem C06_atf_sibling_index_refuted :
+  exists o ls i x, let ps := tree_parents o ls in let k := atf_sibling_index_children ps i in ind (linfo_of (o_delims o) (ptext x)) = ind (linfo_of (o_delims o) (ptext (nth i ls (PL [] None)))) /\ has_children ps i = true /\ parent_of ps 2 = Some 0 /\ parent_of (tree_parents o (insert_at k x ls)) 3 = Some 2 /\ atf_ok o ls i k x = false.
+Proof. exact atf_sibling_index_refuted. Qed.
+Print Assumptions C06_atf_sibling_index_refuted.
+
 Theorem C06_delete_removes_family :
   forall o ls i j x, i < length ls -> forall ls', text_effect o ls (ODelete i) = Ok ls' -> (In (j, x) (keep_idx (i :: all_children (tree_parents o ls) i) 0 ls) <-> nth_error ls j = Some x /\ j <> i /\ ~ ancestor (tree_parents o ls) i j).
 Proof. exact delete_removes_family. Qed.
